@@ -131,6 +131,11 @@ def _part2(job):
         dna = ''.join(rng.choice(ALPHABET) for _ in decl) if (has_dna and decl) else ''
         script = {'seed': rng.randrange(1 << 30), 'p_enter': 0.05, 'observe': 'light', 'log_hp': True, 'hyperparameters': decl,
                   'dna': dna, 'sl': 0.01, 'tp': 0.01, 'entry': 'market'}
+        if dna and rng.random() < 0.4:
+            # the strategy picks its DNA by route: this route's own string, a different one for anything else
+            other = ''.join(rng.choice([c for c in ALPHABET if c != dna[0]]) for _ in decl)
+            script['dna_by_route'] = {f'{sym}|5m': dna, 'default': other}
+            cnt['dna_chosen_by_route'] = cnt.get('dna_chosen_by_route', 0) + 1
         routes.append({'symbol': sym, 'timeframe': '5m', 'script': script})
         real_decl = [dict(h, type=int if h['type'] == 'int' else float) for h in decl]
         if explicit is not None:
